@@ -477,8 +477,11 @@ func ResolveExternalLocation(
 		rec := reader.RecordBatch()
 		// Skip log/error batches
 		recMeta := batchMetadata(rec)
+		// Log and error batches are zero-row by protocol (see
+		// IsExternalLocationBatch and the client's log dispatch); a batch
+		// that carries rows is data even if its metadata uses the key.
 		_, isLog := metaGet(recMeta, MetaLogLevel)
-		if isLog {
+		if isLog && rec.NumRows() == 0 {
 			continue
 		}
 		// Check for redirect loops
